@@ -29,6 +29,8 @@ PROPS = {
     "C05": prop(explanation="E1: nested attribute tokens, concrete branches of SelfTy / impl params / where clause; E2: concrete type shapes, diagnostics for mod / impl"),
     "C13": prop(explanation="E1: TraitVisibility emitter; E2: requested visibility on trait and re-export, delegation-target trait visibility"),
     "C18": prop(explanation="E1: SubAttribute re-emission; E2: attribute placement on fn / trait / impl / parameters / mirrored method attributes"),
+    "C03": prop(explanation="only the second sentence (same call type) is decided; 'compiles' is a fact about rustc. E1: ArgumentsGenerator, trait where clause, TraitGenerics; E2: signature conversion and generics lifting over enumerated generic lists"),
+    "C12": prop(explanation="E1: future_send(), opt_dot_await, contains_async_trait, AsyncTraitParams; E2: make_trait_fn_sig (Output type, Send, ?Send), async_trait detection and re-application, incl. delegation-target traits"),
     "C04": prop(explanation="E1: impl generics, where clause over all declared bounds of all trait fns, Impl path, self type, mockable(); E2: bound collection and impl assembly"),
     "C10": prop(kani=["set_fallbacks_1", "set_fallbacks_2", "modifier_entrait", "modifier_entrait_export", "modifier_entrait_unimock", "modifier_entrait_export_unimock"], explanation="E1: option kernel, cfg_attr(test, ..) gating, emptiness of the unimock params; E3: set_fallbacks; E2: attribute selection over the full option lattice"),
     "C11": prop(explanation="E1: exact unimock attribute parameters incl. unmock_with entries"),
